@@ -981,8 +981,55 @@ def slow_subscriber_order(ctx, sync):
         p.stop()
 
 
+def two_writer_order(ctx, sync, first_kind):
+    """Writer A commits (a waveform, metric, alert ... transaction) and its report is still being delivered (slow subscriber)
+    when writer B commits: B's report must not overtake A's - whatever kind of transaction A's is."""
+    import time as _t
+    p = lb.Provider(start=True, role_providers=False, sync=sync)
+    try:
+        fake = FakeSubscriber([], slow_first=True, max_wait=2.5)
+        install_fake_subscriber(p, fake)
+        w = tx.World(p, ctx.subrng('two', first_kind))
+        ha = w.states_of_kind(first_kind)[0]
+        hb = [h for h in w.states_of_kind('metric') if h != ha][0]
+        errors = []
+
+        def commit(kind, h, n):
+            try:
+                with getattr(p.mdib, {'rt': 'rt_sample_state_transaction'}.get(kind, f'{kind}_state_transaction'))() as mgr:
+                    w.mutate_state(mgr.get_state(h), n)
+            except Exception as ex:  # noqa: BLE001
+                errors.append(repr(ex))
+        ta = threading.Thread(target=commit, args=(first_kind, ha, 3), daemon=True)
+        tb = threading.Thread(target=commit, args=('metric', hb, 4), daemon=True)
+        ta.start()
+        fake.started.wait(5)
+        tb.start()
+        _t.sleep(0.4)
+        fake.release.set()
+        ta.join(10)
+        tb.join(10)
+        t0 = _t.time()
+        while len(fake.received) < 2 and _t.time() - t0 < 5:
+            _t.sleep(0.05)
+        w.close()
+        case = {'two_writers': first_kind, 'sync': sync, 'received_versions': list(fake.received)}
+        if errors:
+            ctx.fail('commit-raised-for-one-bad-subscriber', str(errors), case)
+        if fake.received != sorted(fake.received) or len(fake.received) < 2:
+            ctx.fail('reports-out-of-version-order', f'first writer: {first_kind} transaction with a slow delivery, second writer: metric transaction; '
+                     f'the subscriber received MdibVersions {fake.received}', case)
+        ctx.case(case, nontrivial=True)
+        ctx.count('two-writer-runs')
+    finally:
+        p.stop()
+
+
 def run(ctx):
     c02.run(ctx, hook_cls=C04Hook, prop='C04', drv='drv_c04')
+    for sync in (True, False):
+        for kind in ('rt', 'alert') if ctx.tier == 'quick' else ('rt', 'alert', 'metric', 'component', 'operational'):
+            two_writer_order(ctx, sync, kind)
     for sync in (True, False):
         concurrent_writers(ctx, sync, ctx.n(4, 8), ctx.n(15, 100))
     if ctx.tier == 'thorough' or ctx.proof_problems:
@@ -1012,6 +1059,8 @@ def replay(ctx, obj):
         wire_validity_scenario(ctx2)
     elif 'peer_failure' in case:
         peer_failure_isolation(ctx2, case['sync'])
+    elif 'two_writers' in case:
+        two_writer_order(ctx2, case['sync'], case['two_writers'])
     elif 'sequence_restart' in case:
         sequence_restart_scenario(ctx2)
     elif 'transient_failure' in case:
